@@ -61,8 +61,10 @@ def build(backend, tier):
     per = f"ds.SelectMany(lambda e: {S}).Select(lambda j: {{}})"
     cases = []
 
-    def add(kind, q, md, env, expect="ok", structural=None):
+    def add(kind, q, md, env, expect="ok", structural=None, prior=None):
         cases.append({"kind": kind, "query": q, "md": tuple(md), "env": env, "expect": expect, "structural": structural})
+        if prior:
+            cases[-1]["prior"] = prior
     # ---- 2-parameter functions: all ordered pairs of distinct parameter names x templates x argument pairs
     pairs = list(itertools.permutations(PARAMS, 2))
     tmpl_names = list(TEMPLATES) if tier != "quick" else ["plain", "neighbours", "repeated"]
@@ -138,6 +140,19 @@ def build(backend, tier):
     # ---- built-ins
     add("builtin:DeltaR", f"ds.Select(lambda e: {S}.Select(lambda j: DeltaR(j.eta(), j.phi(), 0.5, 0.25)))", [], {"DeltaR": DeltaR})
     add("builtin:DeltaR-pairs", f"ds.Select(lambda e: {S}.Select(lambda j: e.{a.secondary}('B').Select(lambda k: DeltaR(j.eta(), j.phi(), k.eta(), k.phi()))))", [], {"DeltaR": DeltaR})
+    # ---- history: an EARLIER query on the same executor object supplied code under the same name.  The call site of
+    # the later query must get the code THIS query supplies (or the built-in, or a refusal if it supplies nothing).
+    base_md_h = list(qgen.method_metadata(a))
+    other_dr = spec("DeltaR", ["a", "b", "c", "d"], ["double result = a + b + c + d;"])
+    sc_mul = spec("scale", ["x", "y"], ["double result = x * y;"])
+    sc_add = spec("scale", ["x", "y"], ["double result = x + y + 64;"])
+    for pkind, pq, pmd in (("ok", per.format("DeltaR(j.eta(), j.phi(), j.pt(), 1) + scale(j.pt(), 2)"), [other_dr, sc_add]),
+                           ("fails", per.format("DeltaR(j.eta(), j.phi(), j.pt(), 1) + scale(j.pt(), 2) // 2"), [other_dr, sc_add])):
+        pr = [(pq, base_md_h + pmd)]
+        add(f"history:{pkind}:builtin-after-override", per.format("DeltaR(j.eta(), j.phi(), 0.5, 0.25)"), [], {}, prior=pr)
+        add(f"history:{pkind}:own-after-other", per.format("scale(j.pt(), 2)"), [sc_mul], {"scale": lambda x, y: x * y}, prior=pr)
+        add(f"history:{pkind}:undeclared-after-declared", per.format("scale(j.pt(), 2)"), [], {}, expect="refuse", prior=pr)
+        add(f"history:{pkind}:twice", per.format("scale(j.pt(), 2)"), [sc_mul], {"scale": lambda x, y: x * y}, prior=pr + [(per.format("scale(j.pt(), 2)"), base_md_h + [sc_mul])])
     add("builtin:DeltaR-arity", per.format("DeltaR(j.eta(), j.phi(), 1)"), [], {}, expect="refuse")
     if backend == "atlas":
         add("builtin:getAttributeFloat", per.format("j.getAttributeFloat('w')"), [], {})
